@@ -531,6 +531,31 @@ def _check_multipath(case, mp, tags):
             continue
         if [s.script for s in d.script_pub_keys(i, prv)] != scripts:
             raise Violation("text:multipath-scripts", f"{mtext} element {j} @ {i}")
+    # the checksum of a multipath text is verified too -- parse refuses such a text outright, so multipath_descriptors and
+    # DescriptorWallet.from_descriptor are the only readers a corrupted one could get past
+    from btclib.wallet.descriptor_wallet import DescriptorWallet
+
+    summed = m.descsum_create(mtext)
+    body, _, chk = summed.partition("#")
+    seedn = case["i"] + 7 * len(mtext)
+    charset = m.INPUT_CHARSET if hasattr(m, "INPUT_CHARSET") else "0123456789()[],'/*abcdefgh@:$%{}IJKLMNOPQRSTUVWXYZ&+-.;<=>?!^_|~ijklmnopqrstuvwxyzABCDEFGH`#\"\\ "
+    chk_alphabet = "qpzry9x8gf2tvdw0s3jn54khce6mua7l"
+    corrupted = []
+    pos = seedn % len(chk)
+    corrupted.append(("checksum-char", body + "#" + chk[:pos] + chk_alphabet[(chk_alphabet.index(chk[pos]) + 1 + seedn % 31) % 32] + chk[pos + 1 :]))
+    corrupted.append(("doubled-checksum", summed + "#" + chk))
+    corrupted.append(("truncated-checksum", summed[:-1]))
+    digits = [k for k, ch in enumerate(body) if ch.isdigit() and (k == 0 or body[k - 1] in "<;/") and (k + 1 == len(body) or body[k + 1] in ">;/")]
+    if digits:
+        k = digits[seedn % len(digits)]
+        corrupted.append(("path-digit", body[:k] + str((int(body[k]) + 1 + seedn % 8) % 10) + body[k + 1 :] + "#" + chk))
+    for kind, text in corrupted:
+        if m.descsum_check(text) if hasattr(m, "descsum_check") else False:
+            continue  # the substitution happens to be another valid string: nothing to ask
+        for reader, name in ((multipath_descriptors, "multipath_descriptors"), (lambda t: DescriptorWallet.from_descriptor(t, net), "DescriptorWallet.from_descriptor")):
+            if not refused(reader, text):
+                raise Violation(f"text:corrupted-multipath-accepted:{kind}", f"{name} reads {text!r} (from {summed!r})")
+        tags.add(f"multipath-corruption:{kind}")
     # a step with one element, and steps of different lengths, are refused
     one = mtext.replace(";", "x", 1) if mp == 2 else None
     if one is not None and "<" in one and not refused(multipath_descriptors, one):
